@@ -55,6 +55,11 @@ class PersistentWorker(Worker):
         raise NotImplementedError()
 
     def next_result(self, block=True, timeout=None):
+        if getattr(self, '_results_ended', False):
+            # the end of the results has been seen already, nothing more will ever come (do not wait for it if the worker
+            # happens to be still alive, finishing)
+            raise queue.Empty
+
         if not self.is_alive():
             ret = self.results_endpoint.get_nowait()
         else:
@@ -62,6 +67,7 @@ class PersistentWorker(Worker):
 
         unused_counter, flag, value, unused_wid = ret
         if not flag:
+            self._results_ended = True
             raise queue.Empty
         return value
 
